@@ -34,12 +34,18 @@ func (l slowListener) AddSample(v float64, tags ...string) {
 	}
 	_ = x
 }
-func (r *slowRegistry) RegisterDistribution(string, ...string) core.MetricSampleListener { return slowListener{r} }
-func (r *slowRegistry) RegisterTiming(string, ...string) core.MetricSampleListener       { return slowListener{r} }
-func (r *slowRegistry) RegisterCount(string, ...string) core.MetricSampleListener        { return slowListener{r} }
-func (r *slowRegistry) RegisterGauge(string, core.MetricSupplier, ...string)             {}
-func (r *slowRegistry) Start()                                                           {}
-func (r *slowRegistry) Stop()                                                            {}
+func (r *slowRegistry) RegisterDistribution(string, ...string) core.MetricSampleListener {
+	return slowListener{r}
+}
+func (r *slowRegistry) RegisterTiming(string, ...string) core.MetricSampleListener {
+	return slowListener{r}
+}
+func (r *slowRegistry) RegisterCount(string, ...string) core.MetricSampleListener {
+	return slowListener{r}
+}
+func (r *slowRegistry) RegisterGauge(string, core.MetricSupplier, ...string) {}
+func (r *slowRegistry) Start()                                               {}
+func (r *slowRegistry) Stop()                                                {}
 
 type c07cCase struct {
 	Cfg     LimitCfg `json:"cfg"`
